@@ -7,6 +7,7 @@ duplicated id among otherwise resolvable ones) must raise ValueError and leave t
 from vlib import emlkit, snapshot, treegen
 from vlib.emlkit import Node, mexc, mrule, mvalidate
 from metapype.eml import references
+from metapype.model import metapype_io
 
 PROPERTY = "C16"
 RULE = ("cases are trees: generator-valid EML (eml/dataset roots, no references of their own, pairwise distinct ids) to which 1-8 "
@@ -21,7 +22,7 @@ ASSUMPTIONS = [
     "'tree left as it was' = every field, child order, object identity and the registry equal the pre-snapshot",
     "validity before/after is decided by the real validate.tree (judged separately by C01-C05)",
 ]
-REQUIRED = ["second_round_after_source_was_replaced", "second_round_after_source_was_removed", "expansions", "references_expanded", "valid_before_and_after", "reference_followed_by_siblings", "fault_dangling", "fault_duplicate",
+REQUIRED = ["expansions_beside_a_second_load_of_the_same_model", "references_in_the_other_unicode_composition", "ids_differing_in_unicode_composition_only", "second_round_after_source_was_replaced", "second_round_after_source_was_removed", "expansions", "references_expanded", "valid_before_and_after", "reference_followed_by_siblings", "fault_dangling", "fault_duplicate",
             "source_after_reference_in_document_order", "source_before_reference_in_document_order", "copies_checked_for_aliasing"]
 EXHAUSTIVE = {"quick": False, "thorough": False}
 
@@ -324,6 +325,47 @@ def one(ctx, gen, i):
         treegen.decorate_like_import(rng, root)
         ctx.count("trees_decorated_like_imported_documents")
         log.append("tails+default-namespace")
+    if i % 7 == 3:
+        # the same saved model opened twice in this process (the ids of the two documents are the same); the second one is edited
+        # (its referenced elements get other children), the FIRST one is expanded: the copies come from its own elements
+        try:
+            text = metapype_io.to_json(root)
+            first_doc, second_doc = metapype_io.from_json(text), metapype_io.from_json(text)
+        except Exception:
+            first_doc = None
+        if first_doc is not None:
+            for x in snapshot.walk(second_doc):
+                if "id" in x.attributes and x.parent is not None:
+                    for k in list(x.children):
+                        if k.content:
+                            k.content = k.content + " (other document)"
+                    x.add_child(Node("verifOnlyInOtherDocument", content="x"))
+            ctx.count("expansions_beside_a_second_load_of_the_same_model")
+            judge_ok(ctx, first_doc, None, log + ["the same model loaded twice, the other load edited"])
+            emlkit.discard(root, first_doc, second_doc)
+            return
+    if i % 7 == 5:
+        # ids that differ only in Unicode composition are different ids (a dangling reference stays dangling, two such ids are no
+        # duplicates): one source id is re-spelt, its references are not
+        src = pairs[0][1]
+        src.add_attribute("id", "m\u00fcller-" + src.attributes["id"])
+        if rng.random() < 0.5:
+            for r_, s_ in pairs:
+                if s_ is src:
+                    r_.find_child("references").content = "mu\u0308ller-" + src.attributes["id"][len("m\u00fcller-"):]
+            ctx.count("references_in_the_other_unicode_composition")
+            judge_fault(ctx, root, "dangling", log + ["reference spelt in the other Unicode composition"])
+        else:
+            for r_, s_ in pairs:
+                if s_ is src:
+                    r_.find_child("references").content = src.attributes["id"]
+            twin = Node(src.name)
+            twin.add_attribute("id", "mu\u0308ller-" + src.attributes["id"][len("m\u00fcller-"):])
+            src.parent.add_child(twin, src.parent.children.index(src))
+            ctx.count("ids_differing_in_unicode_composition_only")
+            judge_ok(ctx, root, None, log + ["two ids that differ in Unicode composition only"])
+        emlkit.discard(root)
+        return
     mode = rng.random()
     if mode < 0.55:
         first = snapshot.to_plain(root) if i % 3 == 0 else None
